@@ -8,6 +8,7 @@ import sys
 HERE = os.path.dirname(os.path.abspath(__file__))
 JOBS = [
     ("py2v_batch.py", "Gen/BatchTasksGen.v"),
+    ("py2v_runworker.py", "Gen/RunWorkerGen.v"),
     ("py2v_tempfile.py", "Gen/TempfileSkel.v"),
     ("pyx2v.py", "Gen/KernelPyx.v"),
     ("py2v_reject.py", "Gen/RejectSites.v"),
